@@ -8,7 +8,7 @@ DEL/EXISTS/MGET, KEYS) run under a 5 s watchdog with seeded yields at every lock
 finish is a real deadlock (stuck commands and held stripes are reported).
 B3 (lock-order witness construction, spec/Locks.tla) is run by lib/locks.py when present."""
 import concurrent.futures, json, os
-import common, ks, conc
+import common, ks, conc, sched
 
 tier = common.tier_arg()
 v = common.Verdict("C13")
@@ -40,6 +40,11 @@ with concurrent.futures.ThreadPoolExecutor(max_workers=8) as ex:
         if not cov["samples"]:
             first = json.loads(open(path).readline())
             cov["samples"].append({"kind": "concurrent history", "events": conc.history_of(path, first["h"])[:24]})
+# B1 for schedules (spec/Sched.tla): every preemption-bounded interleaving of pairs / triples holding a multi-key command,
+# on two stripes and on one stripe; cases whose commands are all required to be atomic are decided by TraceLin, the others
+# (STORE forms, SUNION/SINTER/SDIFF, multi-key DEL/EXISTS/MGET) must complete (no deadlock, no leaked stripe)
+sr = sched.run("multi", tier, seed, maxpre=2, maxpre3=1 if tier == "quick" else 2)
+sched.decide(sr, v, "C13", cov)
 try:
     import locks
     locks.run(v, cov, tier, seed)
